@@ -6,6 +6,7 @@ import (
 	"fmt"
 	"go/token"
 	"sort"
+	"strings"
 
 	"golang.org/x/tools/go/ssa"
 )
@@ -161,6 +162,48 @@ func (c *Ctx) ruleA4(rule string, fn *ssa.Function, isWorker func(*ssa.Call) boo
 				}
 			}
 			c.Check(rule, key+"/done-once", !twice, g.Pos(), "Done() must not be called twice on one path")
+			// Done is the last thing the goroutine does: whatever it records (an error, a result)
+			// after Done may come after the join has returned and read the shared state
+			var lateAt ssa.Instruction
+			for _, d := range dones {
+				if _, isDefer := d.(*ssa.Defer); isDefer {
+					continue
+				}
+				if hit, found := pathExists(lit, d, func(i2 ssa.Instruction) bool {
+					switch t := i2.(type) {
+					case *ssa.Store:
+						if al, isAl := x.ResolveAddr(t.Addr).(*ssa.Alloc); isAl && al.Parent() == lit {
+							return false // a variable of the goroutine itself
+						}
+						return true
+					case *ssa.MapUpdate:
+						return true
+					case *ssa.Call:
+						if _, isB := t.Call.Value.(*ssa.Builtin); isB {
+							return false
+						}
+						if isDone(i2) {
+							return false
+						}
+						// the module's own code (addResult, an evaluator ...), a lock, or a call that
+						// cannot be resolved; a library call such as a log line is of no concern
+						cal := t.Call.StaticCallee()
+						if cal == nil || cal.Pkg == nil {
+							return true
+						}
+						pp := cal.Pkg.Pkg.Path()
+						return strings.HasPrefix(pp, modPath) || pp == "sync" || pp == "sync/atomic"
+					}
+					return false
+				}, nil); found {
+					lateAt = hit
+				}
+			}
+			latePos := g.Pos()
+			if lateAt != nil {
+				latePos = lateAt.Pos()
+			}
+			c.Check(rule, key+"/done-last", lateAt == nil, latePos, "the goroutine still writes shared state, takes a lock or calls the module's own code after Done(): the join may already have returned and read the error list / results without it")
 			// error list writes under a lock
 			if E != nil {
 				eachInstr(lit, func(i2 ssa.Instruction) {
